@@ -57,6 +57,15 @@ inductive PField | id | col | row | w | h
     the upper pixel again when the image has no row y+1. -/
 inductive Bottom | read | topIfMissing
   deriving DecidableEq, Repr
+/-- One axis of (*Vaxis).cellPixelSize: the value starts as ` + "`init`" + ` and becomes ` + "`pix / cells`" + ` when
+    ` + "`cells <cellsCmp> cellsLit && pix/cells <quotCmp> quotLit`" + `. -/
+structure CellAxis where
+  init : Nat
+  cellsCmp : Cmp
+  cellsLit : Nat
+  quotCmp : Cmp
+  quotLit : Nat
+  deriving DecidableEq, Repr
 /-- One leading ` + "`if … { return }`" + ` of a Draw method: no encoded data yet (` + "`X.buf.Len() == 0`" + `), the encoder goroutine
     still running (` + "`atomicLoad(&X.encoding)`" + `), the size test ` + "`X.w <cw> w <conn> X.h <ch> h`" + ` against
     ` + "`w, h := win.Size()`" + `, or a condition the extractor does not know (the model then treats the method as never
@@ -689,6 +698,13 @@ func gen(c *ex.Ctx) {
 	}
 	fmt.Fprintf(&sb, "\n/-- fields compared by samePlacement. -/\ndef samePlacementFields : List PField := [%s]\n", strings.Join(fields, ", "))
 
+	// ---- (*Vaxis).cellPixelSize, structured (interpreted by Model/ImageTerm.lean: termCellWith); `none` = a shape the
+	// extractor does not know (the model then yields a zero cell size and the theorems about it fail)
+	{
+		wAx, hAx := cellPixelAxes(c, ex.FindFunc(f, "Vaxis", "cellPixelSize"))
+		fmt.Fprintf(&sb, "\n/-- (*Vaxis).cellPixelSize, horizontal / vertical axis. -/\ndef cellPixelSizeW : Option CellAxis := %s\ndef cellPixelSizeH : Option CellAxis := %s\n", wAx, hAx)
+	}
+
 	// ---- the gates of KittyImage.Draw / Sixel.Draw, structured (interpreted by Model/ImageDraw.lean)
 	for _, d := range [][3]string{{"KittyImage", "k", "kittyGates"}, {"Sixel", "s", "sixelGates"}} {
 		fmt.Fprintf(&sb, "\n/-- the leading `if … { return }` statements of %s.Draw, in source order. -/\ndef %s : List Gate := [%s]\n",
@@ -764,6 +780,76 @@ func keep(texts []string, keys ...string) []string {
 	return out
 }
 
+// cellPixelAxes recognises
+//
+//	<w>, <h> := A, B
+//	if vx.winSize.Cols OP n && vx.winSize.XPixel/vx.winSize.Cols OP' n' { <w> = vx.winSize.XPixel / vx.winSize.Cols }
+//	if vx.winSize.Rows OP n && vx.winSize.YPixel/vx.winSize.Rows OP' n' { <h> = vx.winSize.YPixel / vx.winSize.Rows }
+//	return <w>, <h>
+//
+// (the two ifs in either order, any local names) and returns the two axes as Lean terms; "none" otherwise.
+func cellPixelAxes(c *ex.Ctx, fd *ast.FuncDecl) (string, string) {
+	none := "none"
+	if fd == nil || fd.Body == nil || len(fd.Body.List) != 4 {
+		return none, none
+	}
+	l := fd.Body.List
+	as, ok := l[0].(*ast.AssignStmt)
+	if !ok || as.Tok != token.DEFINE || len(as.Lhs) != 2 || len(as.Rhs) != 2 {
+		return none, none
+	}
+	wN, hN := src(c, as.Lhs[0]), src(c, as.Lhs[1])
+	lit := func(e ast.Expr) (uint64, bool) {
+		b, ok := e.(*ast.BasicLit)
+		if !ok || b.Kind != token.INT {
+			return 0, false
+		}
+		v, err := strconv.ParseUint(b.Value, 0, 32)
+		return v, err == nil
+	}
+	wI, ok1 := lit(as.Rhs[0])
+	hI, ok2 := lit(as.Rhs[1])
+	if !ok1 || !ok2 || src(c, l[3]) != "return "+wN+", "+hN {
+		return none, none
+	}
+	axis := func(st ast.Stmt, v string, init uint64, cells, pix string) string {
+		is, ok := st.(*ast.IfStmt)
+		if !ok || is.Init != nil || is.Else != nil || len(is.Body.List) != 1 {
+			return none
+		}
+		quot := "vx.winSize." + pix + "/vx.winSize." + cells
+		if strings.ReplaceAll(src(c, is.Body.List[0]), " ", "") != v+"=vx.winSize."+pix+"/vx.winSize."+cells {
+			return none
+		}
+		be, ok := is.Cond.(*ast.BinaryExpr)
+		if !ok || be.Op != token.LAND {
+			return none
+		}
+		side := func(e ast.Expr, lhs string) (string, uint64, bool) {
+			b, ok := e.(*ast.BinaryExpr)
+			if !ok || strings.ReplaceAll(src(c, b.X), " ", "") != lhs {
+				return "", 0, false
+			}
+			op, ok := cmpNames[b.Op]
+			n, ok2 := lit(b.Y)
+			return op, n, ok && ok2
+		}
+		c1, n1, ok1 := side(be.X, "vx.winSize."+cells)
+		c2, n2, ok2 := side(be.Y, quot)
+		if !ok1 || !ok2 {
+			return none
+		}
+		return fmt.Sprintf("some ⟨%d, %s, %d, %s, %d⟩", init, c1, n1, c2, n2)
+	}
+	wAx := axis(l[1], wN, wI, "Cols", "XPixel")
+	hAx := axis(l[2], hN, hI, "Rows", "YPixel")
+	if wAx == none && hAx == none { // the two ifs the other way round
+		wAx = axis(l[2], wN, wI, "Cols", "XPixel")
+		hAx = axis(l[1], hN, hI, "Rows", "YPixel")
+	}
+	return wAx, hAx
+}
+
 // structuredGates: every top-level `if cond { return }` of a Draw method as a Gate value.  The size test is only
 // recognised when `<w>, <h> := win.Size()` (any two local names) is a top-level statement before it and neither
 // local nor win is assigned in between; anything else is `.unknown "<cond>"`.  Never fails.
@@ -835,7 +921,7 @@ func genFlow(c *ex.Ctx, f *ast.File) {
 	emit := func(name, doc string, l []string) {
 		fmt.Fprintf(&sb, "/-- %s -/\ndef %s : List String := %s\n\n", doc, name, leanStrList(l))
 	}
-	emit("cellPixelSizeBody", "(*Vaxis).cellPixelSize, statement by statement", stmtTexts(c, body("Vaxis", "cellPixelSize")))
+	// ((*Vaxis).cellPixelSize is structured data in ImageConsts.lean: cellPixelSizeW / cellPixelSizeH)
 	kr := body("KittyImage", "Resize")
 	emit("kittyResizeCell", "KittyImage.Resize: where the cell pixel size comes from and how k.w / k.h are computed",
 		keep(stmtTexts(c, kr), "cellPix", "k.w", "k.h"))
